@@ -1,4 +1,4 @@
-"""C05 - soft constraints are never fatal, honoured maximally, later ones win.
+r"""C05 - soft constraints are never fatal, honoured maximally, later ones win.
 
 All combinations of a hard-statement menu and a soft-statement menu (softs
 optionally nested under if/else/implies, in the class block or inline), every
@@ -130,7 +130,8 @@ def run_case(case):
 
     def bad(sub, X, x, what, obs, exp):
         if len(viol) < 4:
-            viol.append({"subcheck": sub, "case": {"prog": prog, "X": X, "choices": x.choices, "bound": bound, "calls": ncalls},
+            viol.append({"subcheck": sub, "case": {"prog": prog, "X": X, "choices": x.choices, "bound": bound, "calls": ncalls,
+                                                  "pre_fail": bool(case.get('pre_fail'))},
                          "observed": obs, "expected": exp, "what": what})
 
     for X in case['X']:
@@ -147,6 +148,15 @@ def run_case(case):
             P.set_fields(o, prog, X)
             rs = SRandState(s)
             outs = []
+            if case.get('pre_fail'):
+                # a failing call first: later calls must behave as if it never happened
+                o.set_randstate(rs)
+                try:
+                    with o.randomize_with() as it:
+                        it.a == 0
+                        it.a == 1
+                except Exception:
+                    pass
             for _ in range(ncalls):
                 out = common.outcome(lambda: P.call(o, prog, rs))
                 vals, mism = P.read_fields(o, prog)
@@ -239,6 +249,41 @@ def cases_for(tier):
     return cases
 
 
+def deep_cases(tier):
+    """softs nested three conditions deep / in the third arm of an else_if chain; four and five softs with a
+    guarded one late; the same with the last statements inline; each also after a failed call"""
+    fields = [fld('a', U2), fld('b', U2), fld('x', U2, rnd=False)]
+    Xs = [{'x': v} for v in (0, 1, 2, 3)]
+    G = [('bin', '!=', X_, L(0)), ('bin', '<', X_, L(3)), ('bin', '!=', X_, L(1)), ('bin', '>', X_, L(1))]
+    S = SOFT
+    cases = []
+    blocks = []
+    for i, j in itertools.permutations(range(4), 2):
+        if tier == 'quick' and (i + j) % 2 == 0:
+            continue
+        # soft three guards deep, with a conflicting lower-priority soft before it
+        blocks.append([('soft', S[0]), ('if', G[0], [('if', G[1], [('if', G[2], [('soft', S[1])], None)], None)], None)])
+        blocks.append([('soft', S[i]), ('implies', G[0], [('if', G[1], [('implies', G[3], [('soft', S[j])])], [('soft', S[2])])])])
+        # third arm of an else_if chain
+        blocks.append([('soft', S[i]), ('if', ('bin', '==', X_, L(0)), [('soft', S[2])],
+                       ('if', ('bin', '==', X_, L(1)), [('soft', S[3])], ('if', G[1], [('soft', S[j])], [('soft', S[5])])))])
+        # several softs before a conflicting guarded one
+        blocks.append([('soft', S[2]), ('soft', S[3]), ('soft', S[i]), ('if', G[0], [('soft', S[j])], None)])
+        blocks.append([('soft', S[6]), ('soft', S[2]), ('soft', S[7]), ('soft', S[i]), ('implies', G[1], [('soft', S[j])])])
+    seen = set()
+    for b in blocks:
+        k = repr(b)
+        if k in seen:
+            continue
+        seen.add(k)
+        cases.append({'prog': {'fields': fields, 'block': b, 'call': 'randomize'}, 'X': Xs})
+        # last statement inline
+        cases.append({'prog': {'fields': fields, 'block': b[:-1], 'inline': b[-1:], 'call': 'randomize_with'}, 'X': Xs})
+        cases.append({'prog': {'fields': fields, 'block': b[:-1], 'inline': b[-1:], 'call': 'randomize_with'}, 'X': Xs, 'pre_fail': True})
+        cases.append({'prog': {'fields': fields, 'block': b, 'call': 'randomize'}, 'X': Xs, 'pre_fail': True})
+    return cases
+
+
 def classify(v):
     return None
 
@@ -246,6 +291,9 @@ def classify(v):
 def run(res, only=None):
     tier = res.tier
     cases = cases_for(tier)
+    cases += deep_cases(tier)
+    # every 5th program of the main family also after a failed call
+    cases += [dict(c, pre_fail=True) for c in cases_for(tier)[::5] if c['prog']['call'] == 'randomize_with']
     for c in cases:
         c['bound'] = 1
     extra = []
@@ -288,6 +336,6 @@ def run(res, only=None):
 def replay(rec):
     c = rec["case"]
     pr = _detuple(c["prog"])
-    r = run_case({'prog': pr, 'X': [c["X"]], 'bound': c.get("bound", 1), 'calls': c.get("calls", 2)})
+    r = run_case({'prog': pr, 'X': [c["X"]], 'bound': c.get("bound", 1), 'calls': c.get("calls", 2), 'pre_fail': c.get("pre_fail")})
     bad = [v for v in r["viol"] if v["subcheck"] == rec["subcheck"]]
     return (not bad), (bad[0]["what"] if bad else "all results within hard /\\ greedy set")
